@@ -368,4 +368,5 @@ func runC16(c *report.Ctx) {
 			c.OK(key, "every template call is dominated by massutil."+b.kindPred+"(addr)", posOf(c, sites[0]))
 		}
 	}
+	ruleMaturityPerTemplate(c)
 }
